@@ -10,7 +10,6 @@ import (
 	"sort"
 	"strings"
 	"sync/atomic"
-	"time"
 
 	"github.com/facebookincubator/dns/dnsrocks/db"
 	"github.com/miekg/dns"
@@ -95,6 +94,7 @@ type bcase struct {
 	surr int
 	ids  []int // item ids (prefix*2+loc), increasing
 	set  []decl
+	rdb  bool // also compiled to the RocksDB stores
 }
 
 func (c *bcase) key() uint64 { return uint64(c.surr)<<32 | uint64(setKey(c.ids)) }
@@ -112,7 +112,8 @@ type bfailKey struct {
 
 type levelB struct {
 	nAlpha, nClients, nSets, nCases int
-	skipped                         int64
+	nRdbCases                       int
+	rdbRule                         string
 	dbs, evals, nontrivial, failing int64
 	surroundings                    string
 	alpha                           []prefix
@@ -247,12 +248,79 @@ func (b *levelB) runCase(dir string, ci int, stores []storeCfg) {
 	}
 }
 
-func runLevelB(r *vlib.Run, dir string, deadline time.Time) *levelB {
-	b := &levelB{surroundings: surrDoc}
+// rdbCore are the prefixes that matter for the RocksDB stores in the quick tier:
+// both default routes, the zero-network subnets, the /96 boundary and one nested
+// pair per family.
+var rdbCore = []string{"0.0.0.0/0", "::/0", "::/8", "0.0.0.0/8", "::ffff:0:0/96", "8.0.0.0/6", "9.0.0.0/8", "2001:db8::/30", "2001:db9::/32"}
+var rdbZero = []string{"0.0.0.0/0", "::/0", "::/8", "0.0.0.0/8"}
+
+func inList(l []string, t string) bool {
+	for _, x := range l {
+		if x == t {
+			return true
+		}
+	}
+	return false
+}
+
+// rdbSelected decides, from the shape of the case alone, whether it is also
+// compiled to the RocksDB stores (a RocksDB database costs ~100x a CDB file).
+func rdbSelected(thorough bool, shallow map[string]bool, c *bcase) bool {
+	for i, d := range c.set {
+		if i > 0 && d.loc == c.set[0].loc {
+			return false // pairs on RocksDB: the two subnets carry different locations
+		}
+	}
+	if thorough {
+		// members from the 24-prefix alphabet (trees of depth 2)
+		for _, d := range c.set {
+			if !shallow[d.p.text] {
+				return false
+			}
+		}
+		switch c.surr {
+		case sAlone:
+			return true
+		case sNeighA, sEmptyMap:
+			return len(c.set) <= 1
+		default:
+			return len(c.set) == 0 || (len(c.set) == 1 && inList(rdbCore, c.set[0].p.text))
+		}
+	}
+	for _, d := range c.set {
+		if !inList(rdbCore, d.p.text) {
+			return false
+		}
+	}
+	switch c.surr {
+	case sAlone:
+		if len(c.set) == 2 {
+			a, b := c.set[0].p, c.set[1].p
+			return a.fam == b.fam || (inList(rdbZero, a.text) && inList(rdbZero, b.text))
+		}
+		return true
+	case sEmptyMap:
+		return len(c.set) == 0 || (len(c.set) == 1 && (c.set[0].p.text == "::/0" || c.set[0].p.text == "::/8"))
+	case sNeighA:
+		return len(c.set) == 0 || (len(c.set) == 1 && c.set[0].p.text == "8.0.0.0/6")
+	case sRootRecord:
+		return len(c.set) == 0
+	}
+	return false
+}
+
+var rdbDoc = "RocksDB stores, quick: 'alone' with the empty set, the 9 core prefixes {both default routes, ::/8, 0.0.0.0/8, ::ffff:0:0/96, 8.0.0.0/6, 9.0.0.0/8, 2001:db8::/30, 2001:db9::/32} and their pairs tagged aa+bb that are of one family or both in {0.0.0.0/0, ::/0, ::/8, 0.0.0.0/8}; empty-map with {}, {::/0}, {::/8}; neighbours-a with {}, {8.0.0.0/6}; root-record with {}. RocksDB stores, thorough: members from the 24-prefix alphabet; 'alone' with all sets <=2 (pairs tagged aa+bb); neighbours-a and empty-map with sets <=1; neighbours-b/c and root-record with {} and the core singles."
+
+func runLevelB(r *vlib.Run, dir string) *levelB {
+	b := &levelB{surroundings: surrDoc, rdbRule: rdbDoc}
 	b.alpha = buildAlphabet(r.Pick(2, 4))
 	b.clients = buildClients(b.alpha)
 	b.nAlpha, b.nClients = len(b.alpha), len(b.clients)
 	canon := canonIndex(b.alpha)
+	shallow := map[string]bool{}
+	for _, p := range buildAlphabet(2) {
+		shallow[p.text] = true
+	}
 
 	// sets of size <=2; the first subnet is always tagged aa (renaming symmetry)
 	type iset struct{ ids []int }
@@ -272,7 +340,7 @@ func runLevelB(r *vlib.Run, dir string, deadline time.Time) *levelB {
 		}
 	}
 	b.nSets = len(sets)
-	maxSize := map[int]int{sAlone: 2, sNeighA: 2, sEmptyMap: r.Pick(1, 2), sRootRecord: 1, sNeighB: r.Pick(-1, 1), sNeighC: r.Pick(-1, 1)}
+	maxSize := map[int]int{sAlone: 2, sNeighA: 2, sEmptyMap: 1, sRootRecord: 1, sNeighB: r.Pick(-1, 1), sNeighC: r.Pick(-1, 1)}
 	for _, s := range sets {
 		for surr := 0; surr < nSurr; surr++ {
 			if len(s.ids) > maxSize[surr] {
@@ -282,6 +350,7 @@ func runLevelB(r *vlib.Run, dir string, deadline time.Time) *levelB {
 			for _, id := range s.ids {
 				c.set = append(c.set, decl{&b.alpha[id/2], id % 2})
 			}
+			c.rdb = rdbSelected(r.Thorough(), shallow, &c)
 			b.cases = append(b.cases, c)
 		}
 	}
@@ -290,28 +359,32 @@ func runLevelB(r *vlib.Run, dir string, deadline time.Time) *levelB {
 	b.fails = make([][]bfail, len(b.cases))
 	b.gots = make([]map[bfail]string, len(b.cases))
 
-	// cases are ordered by set size, so a time cap leaves the smaller bound complete
-	ran := make([]bool, len(b.cases))
-	db.SeparateBitMap = false
-	vlib.ParallelFor(len(b.cases), func(i int) {
-		if time.Now().After(deadline) {
-			atomic.AddInt64(&b.skipped, 1)
-			return
+	// execution order: the expensive (RocksDB) cases first; results are stored per
+	// case, so the order has no influence on what is reported
+	var order []int
+	for i := range b.cases {
+		if b.cases[i].rdb {
+			order = append(order, i)
+			b.nRdbCases++
 		}
-		ran[i] = true
-		b.runCase(dir, i, storesPhase1)
+	}
+	for i := range b.cases {
+		if !b.cases[i].rdb {
+			order = append(order, i)
+		}
+	}
+	db.SeparateBitMap = false
+	vlib.ParallelFor(len(order), func(i int) {
+		ci := order[i]
+		if b.cases[ci].rdb {
+			b.runCase(dir, ci, storesPhase1)
+		} else {
+			b.runCase(dir, ci, storesPhase1[:1])
+		}
 	})
 	db.SeparateBitMap = true
-	vlib.ParallelFor(len(b.cases), func(i int) {
-		if ran[i] {
-			b.runCase(dir, i, storesPhase2)
-		}
-	})
+	vlib.ParallelFor(len(b.cases), func(i int) { b.runCase(dir, i, storesPhase2) })
 	db.SeparateBitMap = false
-	if b.skipped > 0 {
-		r.Exhaustive = false
-		r.Note("level B: %d of %d cases skipped by the wall-clock cap", b.skipped, len(b.cases))
-	}
 
 	b.report(r)
 	b.sample(r)
